@@ -19,7 +19,15 @@ LEVEL_TEXT = ('Unbounded Lean theorems: (0) ALL SIZES of the hand-modelled surfa
               'IsDistance n H (min Lx Ly Lz), RhombicPlanarCode (Lx,Ly>=2, Lz>=1) has IsDistance n H (min (Lx*Ly+(Lx-1)*(Ly-1)) Lz) '
               '(the weight of the X sheet or the height, NOT min(Lx,Ly,Lz): RhombicPlanarCode(2,2,7).d = 5 and that is the true '
               'distance), Color488Code (Lx,Ly>=1, rectangular sizes included since the repair of its logical operators) has '
-              'IsDistance (8*Lx*Ly) H (min (2Lx) (2Ly)), Color666ToricCode (Lx=Ly=L>=1) has IsDistance (18L^2) H (4L), on the '
+              'IsDistance (8*Lx*Ly) H (min (2Lx) (2Ly)), Color666ToricCode (Lx=Ly=L>=1) has IsDistance (18L^2) H (4L), '
+              'HollowRhombicCode (Lx,Ly>=2, Lz>=3, every size that is a valid code, i.e. not Deficient - C01) has IsDistance n H '
+              '(min wX Lz), wX = Lx*Ly+(Lx-1)(Ly-1)-[Lz>=5]((Lx-2)(Ly-4)+(Lx-3)(Ly-3)) the weight of the listed X sheet z = 4 '
+              '(through the hole when Lz >= 5; HollowRhombicCode(2,2,9).d = 5, (4,5,40).d = 28, true distances): Lz sheets z = 2i '
+              'and one vertical stack per key of the listed sheet, each only shown to commute with all generators and to have '
+              'the parities of the listed logical against the two listed logicals - equivalence through C04 '
+              '(Lattice.same_class), which is where validity enters; NEGATIVE on the deficient sizes with Lx = 3 or Ly = 4 '
+              '(recorded finding): reported d >= 6 but a plaquette of four X is a non-trivial logical '
+              '(deficient_reported_distance_wrong_x/_y), on the '
               'matrices assembled from the '
               'hand-written lattice model, and code.d (min weight over the listed logicals) equals that value, for every '
               'lattice size; RotatedToric3DCode (Lx,Ly>=2 not both odd, Lz>=1): IsDistance n H d and code.d = d with d = min Lx Ly '
@@ -47,7 +55,7 @@ LEVEL_TEXT = ('Unbounded Lean theorems: (0) ALL SIZES of the hand-modelled surfa
               'zig-zag with the four listed strings - one crossing with the string of the other frame and colour, the line '
               'winds twice along a string of its own frame), 3L + L = 4L representatives using every qubit once); (0b) DEFORMED CODES: a '
               'per-qubit permutation of {X,Y,Z} preserves weight, commutation and span, hence IsDistance and code.d '
-              '(distance_deformation_invariant, every n, H, d); so every deformed code of these thirteen classes (every name/axis '
+              '(distance_deformation_invariant, every n, H, d); so every deformed code of these fourteen classes (every name/axis '
               'get_deformation accepts) has the same distance, for every size (distance_deformed); (1) distance criterion and '
               'packing bound for every valid [[n,k]] code (a '
               'non-trivial logical anticommutes with some listed logical, by C04; d pairwise disjoint representatives '
@@ -71,10 +79,10 @@ LEVEL_NOTE = ('trusted: Lean kernel + standard axioms; translator harness/regen_
               'evaluation is redundant with the undeformed instance theorem. All-sizes (unbounded in L) distance '
               'theorems exist for Toric2DCode, Planar2DCode, RotatedPlanar2DCode, Toric3DCode, Planar3DCode, '
               'RotatedPlanar3DCode, XCubeCode, RotatedToric3DCode, HollowPlanar3DCode (no deformation offered), '
-              'RhombicToricCode, RhombicPlanarCode, Color488Code, Color666ToricCode only '
+              'RhombicToricCode, RhombicPlanarCode, Color488Code, Color666ToricCode, HollowRhombicCode (non-deficient sizes) only '
               '(undeformed and deformed; trusted in addition: the correspondence harness tying the hand-written '
-              'lattice models to the classes, as in C01); the other 3 classes are covered by the bounded instance '
-              'theorems (named ..._partial).')
+              'lattice models to the classes, as in C01); the other 2 classes (Color3DCode, Color666PlanarCode) are covered '
+              'by the bounded instance theorems (named ..._partial).')
 TECHNIQUE = ('Lean 4 proof: certificate-checker soundness (unbounded) + kernel-checked instance theorems over tables '
              'and certificates regenerated from the source; differential correspondence of code.d; independent '
              'meet-in-the-middle / MILP search for lighter logical operators on the implementation')
@@ -92,7 +100,7 @@ RULE = ('stream 1: one `dist` op per (class, size, deformation): model distance 
 # all-sizes distance theorems of the hand-modelled classes (built and axiom-audited with C17)
 ALLSIZES_CLASSES = ['Toric2DCode', 'Planar2DCode', 'RotatedPlanar2DCode', 'Toric3DCode', 'Planar3DCode',
                     'RotatedPlanar3DCode', 'XCubeCode', 'HollowPlanar3DCode', 'RotatedToric3DCode', 'RhombicToricCode',
-                    'RhombicPlanarCode', 'Color488Code', 'Color666ToricCode']
+                    'RhombicPlanarCode', 'Color488Code', 'Color666ToricCode', 'HollowRhombicCode']
 PROPERTY_MODULES = ['PanqecVerif.Properties.C17'] + [f'PanqecVerif.Properties.C17{c}' for c in ALLSIZES_CLASSES]
 
 # instances of the regenerated tables for which no certificate is expected (see LEVEL_NOTE)
@@ -429,6 +437,68 @@ def hollow_membrane_case(size):
             'match': match}
 
 
+# deficient sizes of HollowRhombicCode (recorded C01 finding: rank n-k-1 or less): the plaquette of four X next to
+# the thin hole (theorems C17HollowRhombicCode.deficient_reported_distance_wrong_x / _y)
+HOLLOW_RHOMBIC_DEFICIENT = [((3, 6, 6), [(2, 5, 4), (2, 5, 6), (2, 4, 5), (2, 6, 5)])]
+HOLLOW_RHOMBIC_DEFICIENT_DEEP = [((5, 4, 6), [(5, 2, 4), (5, 2, 6), (4, 2, 5), (6, 2, 5)]),
+                                 ((3, 7, 6), [(2, 5, 4), (2, 5, 6), (2, 4, 5), (2, 6, 5)])]
+
+
+def in_span(rows: List[int], v: int) -> bool:
+    """v is a GF(2) combination of the rows (bit masks)"""
+    piv: Dict[int, int] = {}
+    for r in rows:
+        while r:
+            h = r.bit_length() - 1
+            if h in piv:
+                r ^= piv[h]
+            else:
+                piv[h] = r
+                break
+    while v:
+        h = v.bit_length() - 1
+        if h not in piv:
+            return False
+        v ^= piv[h]
+    return True
+
+
+def span_check_operator(inst: D.Inst, op: Dict[int, str]) -> bool:
+    """the property as stated, without reference to the listed logicals: the operator commutes with
+    every generator, is NOT a product of generators (GF(2) elimination), and is lighter than the reported d"""
+    if not op or any(int(q) < 0 or int(q) >= inst.n for q in op):
+        return False
+    v = op_to_mask(inst, op)
+    if any(symp(inst.n, g, v) for g in inst.H):
+        return False
+    if D.pweight(inst.n, v) >= inst.d:
+        return False
+    return not in_span(inst.H, v)
+
+
+def hollow_rhombic_deficient_case(size, keys):
+    """X on the plaquette `keys` of HollowRhombicCode(size), a deficient size: a failure iff it commutes with
+    all generators, is not a product of generators and is lighter than the reported d (it commutes with BOTH
+    listed logicals: it belongs to the undeclared second logical qubit, so `check_operator` does not see it)"""
+    cls = 'HollowRhombicCode'
+    try:
+        inst = live(cls, tuple(size), (None, {}))
+    except Exception:  # noqa
+        return None
+    if any(tuple(k) not in inst.coord_index for k in keys):
+        return None
+    op = {inst.coord_index[tuple(k)]: 'X' for k in keys}
+    if not span_check_operator(inst, op):
+        return None
+    return {'input': {'class': cls, 'size': list(size), 'deform': [None, {}], 'span_check': True,
+                      'operator': {str(q): p for q, p in sorted(op.items())},
+                      'operator_coordinates': describe(inst, op), 'weight': len(op), 'reported_d': inst.d},
+            'observed': f'operator of weight {len(op)} < reported d = {inst.d} commutes with all {len(inst.H)} generators '
+                        f'and is not a product of generators (it commutes with both listed logicals: undeclared second '
+                        f'logical qubit of the thin hole)',
+            'match': {'class': cls, 'size_class': 'deficient (thin hole), Lx = 3 or Ly = 4'}}
+
+
 def lighter_or_equal_none(inst: D.Inst, w: int) -> bool:
     """True iff no non-trivial logical of weight <= w exists (exhaustive, w <= 4)"""
     return lighter_mitm(inst, w) is None
@@ -516,6 +586,14 @@ def oracle(ctx, deep=False, broken=None):
         f = hollow_membrane_case(size)
         if f is not None:
             fails.append(f)
+    # directed family (theorems C17HollowRhombicCode.deficient_reported_distance_wrong_x / _y; recorded finding):
+    # on a deficient size of HollowRhombicCode the plaquette of four X next to the thin hole is lighter than code.d
+    n_def = 0
+    for size, keys in HOLLOW_RHOMBIC_DEFICIENT + (HOLLOW_RHOMBIC_DEFICIENT_DEEP if deep else []):
+        n_def += 1
+        f = hollow_rhombic_deficient_case(size, keys)
+        if f is not None:
+            fails.append(f)
     # the d written to result files = the d of a fresh code of that size (same for n, k)
     n_rec = 0
     for cls, sizes in recorded_cases(ctx, deep):
@@ -544,7 +622,8 @@ def oracle(ctx, deep=False, broken=None):
             continue
         seen.add(k)
         out.append(f)
-    return out, {'evaluations': len(cases) + n_rec + n_dir, 'recorded_d_cases': n_rec, 'hollow_membrane_cases': n_dir, 'construct_errors': errs, 'deep': bool(deep),
+    return out, {'evaluations': len(cases) + n_rec + n_dir + n_def, 'recorded_d_cases': n_rec, 'hollow_membrane_cases': n_dir,
+                 'hollow_rhombic_deficient_cases': n_def, 'construct_errors': errs, 'deep': bool(deep),
                  'milp_cases': len(milp_cases), 'seconds': round(time.time() - t0, 1)}
 
 
@@ -561,6 +640,8 @@ def replay(ctx, payload):
         return False
     if i.get('operator') and check_operator(inst, {int(q): p for q, p in i['operator'].items()}):
         return True
+    if i.get('span_check'):
+        return span_check_operator(inst, {int(q): p for q, p in i['operator'].items()})
     f, _ = oracle_case({'class': i['class'], 'size': i['size'], 'deform': i['deform'], 'max_w': 4, 'milp': True}, True)
     return f is not None
 
